@@ -140,6 +140,16 @@ void process_efun_callback (int narg, function_to_call_t * ftc, int f) {
 svalue_t* call_efun_callback (function_to_call_t * ftc, int n) {
   svalue_t *v;
 
+  /* A callback costs a tick of its own: when it names a function that does not exist no instruction runs
+   * at all, and efuns like sort_array() make thousands of callbacks (each hashing the name) for the one
+   * tick of the efun.  Same test as in eval_instruction(). */
+  if (!--eval_cost)
+    {
+      set_error_state (ES_MAX_EVAL_COST);
+      eval_cost = CONFIG_INT (__MAX_EVAL_COST__);
+      error ("*Too long evaluation. Execution aborted.");
+    }
+
   if (ftc->narg)
     push_some_svalues (ftc->args, ftc->narg);
 
